@@ -2,10 +2,11 @@
    oracles of this property rest on, regenerated from /repo on every run, equal the reviewed ones:
      - group wiring (which output feeds which input, as OpenMDAO resolves it) of the canonical models of: AerostructPoint, SpatialBeamAlone
      - unit contract (declared units of every input / output) of the classes in: structures
-   An edit that re-wires a group or drops / changes a unit in these areas breaks the obligation; the oracles of the property
-   then look for the failing input. *)
+     - option defaults of the classes in: structures
+   An edit that re-wires a group, drops / changes a unit or changes a default in these areas breaks the obligation; the oracles of
+   the property then look for the failing input. *)
 From Coq Require Import String List Bool.
-From OAS Require Import Wiring WiringReviewed IOUnits IOUnitsReviewed Tie_wiring_AerostructPoint Tie_wiring_SpatialBeamAlone Tie_units_structures.
+From OAS Require Import Wiring WiringReviewed IOUnits IOUnitsReviewed OptionDefaults OptionDefaultsReviewed Tie_wiring_AerostructPoint Tie_wiring_SpatialBeamAlone Tie_units_structures Tie_options_structures.
 Import ListNotations.
 
 Theorem C15_wiring_of_AerostructPoint_models_is_the_reviewed_one :
@@ -22,3 +23,8 @@ Theorem C15_unit_contract_of_structures_is_the_reviewed_one :
   units_dir_structures gen_io_units = units_dir_structures reviewed_io_units /\ units_dir_structures reviewed_io_units <> [].
 Proof. split; [exact units_structures_reviewed | exact units_structures_nonempty]. Qed.
 Print Assumptions C15_unit_contract_of_structures_is_the_reviewed_one.
+
+Theorem C15_option_defaults_of_structures_are_the_reviewed_ones :
+  options_dir_structures gen_option_defaults = options_dir_structures reviewed_option_defaults /\ options_dir_structures reviewed_option_defaults <> [].
+Proof. split; [exact options_structures_reviewed | exact options_structures_nonempty]. Qed.
+Print Assumptions C15_option_defaults_of_structures_are_the_reviewed_ones.
